@@ -97,7 +97,7 @@ func tIte(c, a, b *Term) *Term {
 			return tNot(c)
 		}
 	}
-	return mkTerm("(ite " + c.S + " " + a.S + " " + b.S + ")", a.Sort)
+	return mkTerm("(ite "+c.S+" "+a.S+" "+b.S+")", a.Sort)
 }
 func tEq(a, b *Term) *Term {
 	if a.S == b.S {
@@ -118,9 +118,9 @@ func tEq(a, b *Term) *Term {
 		}
 	}
 	if a.Sort == "F64" || a.Sort == "F32" {
-		return mkTerm("(fp.eq " + a.S + " " + b.S + ")", "Bool")
+		return mkTerm("(fp.eq "+a.S+" "+b.S+")", "Bool")
 	}
-	return mkTerm("(= " + a.S + " " + b.S + ")", "Bool")
+	return mkTerm("(= "+a.S+" "+b.S+")", "Bool")
 }
 func tInt(i int64) *Term {
 	if i < 0 {
@@ -136,7 +136,7 @@ func tBV(i int64, bits int) *Term {
 	return mkTerm(fmt.Sprintf("(_ bv%d %d)", u, bits), bvSort(bits))
 }
 func tBin(op string, a, b *Term, sort string) *Term {
-	return mkTerm("(" + op + " " + a.S + " " + b.S + ")", sort)
+	return mkTerm("("+op+" "+a.S+" "+b.S+")", sort)
 }
 func tBool(b bool) *Term {
 	if b {
